@@ -5,6 +5,7 @@ import SonicSpec.Model.ConcLoad
 set_option linter.unusedSectionVars false
 set_option linter.unusedVariables false
 namespace SonicSpec.Conc
+open PreFix
 
 theorem foldl_find_none (text : Nat) (s : String) (l : List Func) (acc : Option Nat)
     (h : ∀ f ∈ l, f.name ≠ s) :
@@ -84,12 +85,12 @@ theorem layout_names (items : List Item) (off : Nat) :
   | nil => rfl
   | cons a r ih => simp [layout, ih]
 
-/-! ### history machine -/
+/-! ### history machine keyed by type only (pre-fix model) -/
 section Hist
 variable {τ χ π : Type} [DecidableEq τ]
 
-theorem assoc_runHist (compile : τ → χ → π) (t : τ) (h : List (τ × χ)) :
-    ∀ c : List (τ × π), assoc t (runHist compile c h) =
+theorem PreFix.assoc_runHist (compile : τ → χ → π) (t : τ) (h : List (τ × χ)) :
+    ∀ c : List (τ × π), assoc t (PreFix.runHist compile c h) =
       match assoc t c with
       | some p => some p
       | none => (firstCtx t h).map (compile t) := by
@@ -124,14 +125,69 @@ theorem assoc_runHist (compile : τ → χ → π) (t : τ) (h : List (τ × χ)
 
 /-- the program that serves `(t, x)` after history `h` is the one compiled for the context of the
     FIRST request for `t` (in `h`, else the request itself) -/
-theorem servedAfter_eq (compile : τ → χ → π) (h : List (τ × χ)) (t : τ) (x : χ) :
-    servedAfter compile h (t, x) = compile t ((firstCtx t h).getD x) := by
+theorem PreFix.servedAfter_eq (compile : τ → χ → π) (h : List (τ × χ)) (t : τ) (x : χ) :
+    PreFix.servedAfter compile h (t, x) = compile t ((PreFix.firstCtx t h).getD x) := by
   unfold servedAfter serve
   simp only
-  have := assoc_runHist compile t h ([] : List (τ × π))
+  have := PreFix.assoc_runHist compile t h ([] : List (τ × π))
   simp only [assoc] at this
   rw [this]
   cases firstCtx t h <;> rfl
 
 end Hist
+
+/-! ### the code as it is now -/
+
+theorem layout_offs (items : List Item) (off : Nat) :
+    (layout items off).map (·.entryOff) = offsets (items.map (·.size)) off := by
+  induction items generalizing off with
+  | nil => rfl
+  | cons a r ih => simp [layout, offsets, ih]
+
+theorem layout_entries (text : Nat) (items : List Item) (off : Nat) :
+    (layout items off).map (fun f => text + f.entryOff) =
+      (offsets (items.map (·.size)) off).map (fun o => text + o) := by
+  induction items generalizing off with
+  | nil => rfl
+  | cons a r ih => simp [layout, offsets, ih]
+
+section HistNow
+variable {τ χ π : Type} [DecidableEq τ] [DecidableEq χ]
+
+/-- every cached program is the one compiled for the request it is stored under -/
+def CacheSound (compile : τ → χ → π) (c : List ((τ × χ) × π)) : Prop :=
+  ∀ r p, assoc r c = some p → p = compile r.1 r.2
+
+theorem serve_sound (compile : τ → χ → π) (c : List ((τ × χ) × π)) (hc : CacheSound compile c) (r : τ × χ) :
+    (serve compile c r).1 = compile r.1 r.2 ∧ CacheSound compile (serve compile c r).2 := by
+  unfold serve
+  cases ha : assoc r c with
+  | some p => exact ⟨hc r p ha, hc⟩
+  | none =>
+    refine ⟨rfl, ?_⟩
+    intro r' p hp
+    simp only [assoc] at hp
+    by_cases he : r = r'
+    · subst he
+      simp only [if_true, Option.some.injEq] at hp
+      exact hp.symm
+    · simp only [if_neg he] at hp
+      exact hc r' p hp
+
+theorem runHist_sound (compile : τ → χ → π) (h : List (τ × χ)) :
+    ∀ c, CacheSound compile c → CacheSound compile (runHist compile c h) := by
+  induction h with
+  | nil => intro c hc; exact hc
+  | cons r h ih =>
+    intro c hc
+    exact ih _ (serve_sound compile c hc r).2
+
+theorem servedAfter_eq (compile : τ → χ → π) (h : List (τ × χ)) (r : τ × χ) :
+    servedAfter compile h r = compile r.1 r.2 := by
+  unfold servedAfter
+  have hs : CacheSound compile (runHist compile ([] : List ((τ × χ) × π)) h) :=
+    runHist_sound compile h [] (by intro r p hp; simp [assoc] at hp)
+  exact (serve_sound compile _ hs r).1
+
+end HistNow
 end SonicSpec.Conc
